@@ -20,12 +20,16 @@ RESERVED = ["x", "y", "z", "t", "timestamp", "idx"]
 PTS, DICO = "_Track__POINTS", "_Track__analyticalFeaturesDico"
 
 
+def _deref(t):
+    return opt_get(t) if isinstance(t.kind, KOpt) else t       # optional track used under a "not None" guard
+
+
 def pts_of(ex, st, t):
-    return ex.read_field(st, t, PTS)
+    return ex.read_field(st, _deref(t), PTS)
 
 
 def dico_of(ex, st, t):
-    return ex.read_field(st, t, DICO)
+    return ex.read_field(st, _deref(t), DICO)
 
 
 def z_reserved(k):
